@@ -306,6 +306,17 @@ def drop_terminal_measurements(
 
     if not circuit.are_all_measurements_terminal():
         raise ValueError('Circuit contains a non-terminal measurement.')
+    # A measurement whose result is used by a classically controlled operation is not terminal
+    # even when nothing follows it on its qubits: dropping it would leave a dangling control key.
+    unrolled = transformer_primitives.unroll_circuit_op(circuit, deep=True, tags_to_check=None)
+    consumed_keys = protocols.measurement_key_objs(unrolled) & {
+        key for op in unrolled.all_operations() for key in protocols.control_keys(op)
+    }
+    if consumed_keys:
+        raise ValueError(
+            'Circuit contains a non-terminal measurement: the result of '
+            f'{sorted(str(k) for k in consumed_keys)} is used by a classically controlled operation.'
+        )
 
     def flip_inversion(op: cirq.Operation, _) -> cirq.OP_TREE:
         if isinstance(op.gate, ops.MeasurementGate):
